@@ -187,3 +187,89 @@ def _is_class_level(m: Module, qualname: str, attr: str) -> bool:
     init = m.get(f"{cls_name}.__init__")
     in_init = isinstance(init, ast.FunctionDef) and any(isinstance(n, ast.Attribute) and isinstance(n.ctx, ast.Store) and n.attr == attr and isinstance(n.value, ast.Name) and n.value.id == "self" for n in ast.walk(init))
     return in_body and not in_init
+
+
+MUTATING_METHODS = {"update", "append", "extend", "add", "pop", "clear", "setdefault", "insert", "remove", "discard", "popitem", "sort", "reverse", "__setitem__", "__ior__"}
+_MUT_RET = ("Dict", "dict", "Grammar", "CanonicalGrammar", "List", "list", "Set", "set", "OrderedSet", "defaultdict")
+
+
+def cached_functions(module: Module):
+    """(qualname, fn) for functions decorated with functools' lru_cache / cache."""
+    out = []
+    for q, fn in module.functions():
+        if not isinstance(fn, ast.FunctionDef):
+            continue
+        for d in fn.decorator_list:
+            t = src(d)
+            if t.split("(")[0].split(".")[-1] in ("lru_cache", "cache"):
+                out.append((q, fn))
+    return out
+
+
+def _returns_mutable(fn: ast.FunctionDef) -> bool:
+    ann = src(fn.returns) if fn.returns is not None else ""
+    import re as _re
+
+    if ann:
+        head = _re.split(r"[\[|]", ann.replace("Optional[", "").replace("typing.", ""))[0].strip().strip('"')
+        return head in _MUT_RET
+    for r in walk_local(fn):
+        if isinstance(r, ast.Return) and isinstance(r.value, (ast.Dict, ast.List, ast.Set, ast.DictComp, ast.ListComp, ast.SetComp)):
+            return True
+    return False
+
+
+def _mutations_of(scope: ast.AST, target: str):
+    hits = []
+    for n in ast.walk(scope):
+        if isinstance(n, ast.AugAssign) and src(n.target) == target and isinstance(n.op, (ast.BitOr, ast.Add, ast.BitAnd, ast.Sub)):
+            hits.append(n)
+        elif isinstance(n, (ast.Assign, ast.Delete)):
+            tg = n.targets
+            for t in tg:
+                if isinstance(t, ast.Subscript) and src(t.value) == target:
+                    hits.append(n)
+        elif isinstance(n, ast.Call) and isinstance(n.func, ast.Attribute) and n.func.attr in MUTATING_METHODS and src(n.func.value) == target:
+            hits.append(n)
+    return hits
+
+
+def check_cached_returns(ctx, rule: str, def_relpaths, use_relpaths) -> int:
+    """A function memoised with lru_cache/cache hands the SAME object to every caller: if it returns a mutable container and some caller changes it in place,
+    every later caller (with equal arguments) gets the changed object."""
+    cached = {}
+    for rel in def_relpaths:
+        m = ctx.repo.module(rel, rule)
+        for q, fn in cached_functions(m):
+            if _returns_mutable(fn):
+                cached[fn.name] = (rel, q, fn)
+    n = 0
+    for rel in use_relpaths:
+        m = ctx.repo.module(rel, rule)
+        for q, fn in m.functions():
+            if not isinstance(fn, ast.FunctionDef):
+                continue
+            for a in walk_local(fn):
+                if not (isinstance(a, (ast.Assign, ast.AnnAssign, ast.AugAssign)) and a.value is not None):
+                    continue
+                calls = [c for c in ast.walk(a.value) if isinstance(c, ast.Call) and isinstance(c.func, (ast.Name, ast.Attribute)) and (c.func.id if isinstance(c.func, ast.Name) else c.func.attr) in cached]
+                # only direct results: `x = f(...)`, `x = f(...) if c else y`, `self.a = f(...)`
+                direct = [c for c in calls if c is a.value or (isinstance(a.value, ast.IfExp) and c in (a.value.body, a.value.orelse))]
+                if not direct:
+                    continue
+                tgt = a.targets[0] if isinstance(a, ast.Assign) else a.target
+                tname = src(tgt)
+                n += 1
+                scope = fn
+                if tname.startswith("self."):
+                    cls = m.get(q.split(".")[0])
+                    scope = cls if isinstance(cls, ast.ClassDef) else fn
+                muts = [x for x in _mutations_of(scope, tname) if x is not a]
+                fname = direct[0].func.id if isinstance(direct[0].func, ast.Name) else direct[0].func.attr
+                drel, dq, _ = cached[fname]
+                ctx.check(not muts, rule, f"{rel}:{q}", f"{tname} = {fname}(...) not mutated in place", site(a),
+                          f"`{fname}` ({drel}) is memoised (lru_cache) and returns a mutable container; its result is bound to `{tname}` and changed in place at line "
+                          f"{getattr(muts[0], 'lineno', '?') if muts else '?'} (`{' '.join(src(muts[0]).split())[:60] if muts else ''}`): the cached object itself is modified, so the next call with the same "
+                          "argument returns the modified container (e.g. parse_bnf(text) after ISLaSolver(text, ...) added a rule to its grammar)", "results of memoised functions are copied before they are modified")
+    ctx.inventory[f"{rule}_cached_mutable_functions"] = sorted(cached)
+    return n
